@@ -275,6 +275,15 @@ func (db *factDB) nonzero(v string) bool {
 
 // has: a fact x op y is present literally (or by flipping).
 func (db *factDB) has(x string, op token.Token, y string) bool {
+	// x < y also follows from x <= y − 1 (a closed bound handed to a range-check helper: last = len − 1)
+	if op == token.LSS {
+		ym1 := "(" + y + " - 1)"
+		for _, f := range db.facts {
+			if (f.X == x && f.Y == ym1 && f.Op == token.LEQ) || (f.X == ym1 && f.Y == x && f.Op == token.GEQ) {
+				return true
+			}
+		}
+	}
 	for _, f := range db.facts {
 		if f.X == x && f.Y == y && f.Op == op {
 			return true
